@@ -25,7 +25,9 @@ PROPS = {
              'of what it signed and the model\'s expiry arithmetic on the real heights and times) and the reply, best chain, pool '
              'and duplicate lookups are compared with the model. Recorded random walks over more ids and longer histories are '
              'validated by the trace specification.',
-        note='Mechanism model; error codes abstracted to accept / reject; order inside a block not compared; reorganisations one '
+        note='Mechanism model; error codes abstracted to accept / reject; order inside a block not compared; node restarts are not part of the '
+             'explored histories (the duplicate cache for height-bounded transactions is rebuilt only at start-up: seeded change C28-1, a '
+             'narrowed rebuild window, is therefore not caught); reorganisations one '
              'block deep (after deeper ones the pool\'s re-admission depends on bus scheduling, which this property does not '
              'constrain); no transaction groups; TxHeight window shortened to LO+HI = 2..3 blocks through the node configuration '
              '(lowAllowPackHeight / highAllowPackHeight) so that both window edges lie inside the enumerated histories; time-bounded '
